@@ -250,8 +250,8 @@ Fixpoint take_bytes (n : nat) (l : list N) : res (list N * list N) :=
 Definition read_byte_raw (d : decoder) : res (N * decoder) :=
   if has_bytes d 1 then get_byte d else Err ST_TRUNCATED.
 
-(** carquet_buffer_reader_skip as used by thrift_skip: its status is discarded, so a short buffer
-    leaves the cursor where it is without reporting anything *)
+(** carquet_buffer_reader_skip as used by thrift_skip for BYTE / DOUBLE / UUID: a short buffer is reported as
+    THRIFT_TRUNCATED (since /repo 831b13e; before, the failed skip was ignored and the cursor stayed) *)
 Definition reader_skip (n : N) (d : decoder) : res decoder :=
   if has_bytes d n then
     match take_bytes (N.to_nat n) (d_rest d) with
@@ -259,7 +259,7 @@ Definition reader_skip (n : N) (d : decoder) : res decoder :=
     | Err c => Err c
     | Fault f => Fault f
     end
-  else Ok d.
+  else Err ST_TRUNCATED.
 
 (** thrift_read_varint: `while (shift < 64)` runs for shift = 0, 7, ..., 63 *)
 Fixpoint read_varint_loop (iters : nat) (shift : N) (result : N) (d : decoder) : res (N * decoder) :=
@@ -528,3 +528,39 @@ Fixpoint skip_unbounded (stack_frames : nat) (ty : N) (d : decoder) {struct stac
     | _ => Err ST_INVALID_TYPE   (* the other cases are as in skip_value and play no role in the refutation *)
     end
   end.
+
+(* ------------------------------------------------------------------------------------------ *)
+(** * Remaining entry points of thrift_encode.c / thrift_decode.c (not used by parquet_types.c) *)
+
+(** thrift_write_uuid: 16 bytes copied from the caller's array *)
+Definition write_uuid (uuid : list N) (e : encoder) : res encoder :=
+  match read_obj 16 uuid with
+  | Ok cp => Ok (emit cp e)
+  | Err c => Err c
+  | Fault f => Fault f
+  end.
+
+(** thrift_write_set_begin / thrift_read_set_begin: "Set has the same encoding as list" *)
+Definition write_set_begin := write_list_begin.
+Definition read_set_begin := read_list_begin.
+
+(** thrift_read_uuid *)
+Definition read_uuid (d : decoder) : res (list N * decoder) :=
+  if has_bytes d 16 then
+    match take_bytes 16 (d_rest d) with
+    | Ok (a, r) => Ok (a, with_reader d r (d_pos d + 16))
+    | Err c => Err c
+    | Fault f => Fault f
+    end
+  else Err ST_TRUNCATED.
+
+(** thrift_read_string_alloc: the C string made of the binary's bytes (what strlen sees) *)
+Definition read_string (d : decoder) : res (list N * decoder) :=
+  match read_binary d with
+  | Ok (bs, d1) => Ok (cstr bs, d1)
+  | Err c => Err c
+  | Fault f => Fault f
+  end.
+
+(** thrift_skip_field *)
+Definition skip_field := thrift_skip.
